@@ -501,7 +501,7 @@ CHECKS = {
              'Generated/AddrCache.v, FAILS the check.',
         note='PARTIAL: the equivalence is proved outside K and refuted inside. K = an aborted transaction holding rename, set-synced-to, set-birthday, '
              'extend, import, new-account followed by a read of it, or a cached reload of an evicted account; or a committed transaction holding extend '
-             'after next-addresses on the same branch, or SetSyncedTo(nil). 17 (kind, site) pairs of K are recorded KNOWN findings (eager in-memory '
+             'after next-addresses on the same branch, or SetSyncedTo(nil). 19 (kind, site) pairs of K are recorded KNOWN findings (eager in-memory '
              "updates, same root cause as C10's), each identified by the operations with their outcomes and the transaction's fate "
              '(`<Op>=<outcome>,…/rolled-back|committed`; consequences as `after:<root site>`), so a different divergence at the same operation is a new '
              'VIOLATION. Two defects repaired: S4 phantom address after a rolled-back issuance (fix: a362ebf) and S14 extendAddresses dropping the '
@@ -509,7 +509,7 @@ CHECKS = {
              'address waiting for its key belongs to an account whose row was rolled back and whose cache entry was evicted, Unlock fails with '
              'ErrAccountNotFound and the manager stays locked until restart. SetSyncedTo / SetBirthday / Import eagerness is not two-sided (repairing '
              'those would alarm as a model mismatch). Two scopes are exercised by per-scope projection only (no theorem about the product). '
-             'ChangePassphrase, ConvertToWatchingOnly, NewScopedKeyManager are outside the alphabet; fault-free database in the model. Trusted: '
+             'ConvertToWatchingOnly is in the alphabet (committed conversions are covered by C08_outside_K; a rolled-back conversion is in K: the running manager is watching-only for good, a restart is an ordinary manager - known finding). ChangePassphrase and NewScopedKeyManager are outside the alphabet (the first changes nothing the queries report, the second adds a component the one-scope model has no state for); fault-free database in the model. Trusted: '
              'address<->path table derived with hdkeychain, bbolt. No axioms.'),
     "C03": dict(
         text='Executable model Addr/Mgr.v of waddrmgr key derivation and private-key availability (disk rows, account and address caches, deriveOnUnlock, '
